@@ -15,6 +15,7 @@ type PureCase struct {
 	Start uint16 `json:"start"`
 	N     int    `json:"n"`
 	Steps []Step `json:"steps"`
+	NoPid bool   `json:"nopid,omitempty"` // a codec without picture ids: every call passes 0
 }
 
 // genPure generates an arrival history with drop requests.
@@ -88,5 +89,32 @@ func GenPure(r *rand.Rand, long bool) PureCase {
 		}
 		c.Steps = out
 	}
+	return c
+}
+
+// GenPureCycle: exactly 2^16 packets withheld (every other one of an in-order stream without
+// picture ids): the 16-bit count of withheld packets is back at 0 while intervals are
+// recorded; then late copies of forwarded and of withheld packets.
+func GenPureCycle(r *rand.Rand) PureCase {
+	c := PureCase{NoPid: true}
+	if r.IntN(2) == 0 {
+		c.Start = ForcedStarts[r.IntN(len(ForcedStarts))]
+	} else {
+		c.Start = uint16(r.UintN(65536))
+	}
+	const cycle = 2 * 65536
+	for i := 0; i < cycle; i++ {
+		c.Steps = append(c.Steps, Step{i, i%2 == 1})
+	}
+	next := cycle
+	for j := 0; j < 400; j++ {
+		if r.IntN(3) == 0 {
+			c.Steps = append(c.Steps, Step{next - 1 - r.IntN(200), r.IntN(4) == 0})
+		} else {
+			c.Steps = append(c.Steps, Step{next, false})
+			next++
+		}
+	}
+	c.N = next
 	return c
 }
